@@ -87,4 +87,13 @@ CHECKS = {
             {"name": "fuzz", "run": "FuzzLoad", "kind": "fuzz", "tiers": ["thorough"], "fuzztime": {"thorough": "150s"}, "shards": 1, "timeout": {"thorough": 900}},
         ],
     },
+    "C19": {
+        "pkg": "c19", "level": "exploration", "exhaustive_claim": True,
+        "rule": "canary planting over the C13 definition grammar: a canary (0: the whole value is a backtick `touch <tmp>/canary_i`; 1: the substitution appended to the default value; 2: a ${VAR} reference appended) is planted in one string-valued field at a time — exhaustively over the field catalogue of three maximal definitions (every optional block, all schedule/env forms, all seven step kinds, all handlers) x 18 non-executing entry points (dag.LoadYAML / LoadMetadata / LoadWithoutEval, DAGStore.UpdateSpec / GetDetails / GetMetadata / GetSpec / List / ListPagination / Grep / Find / TagList, client.GetStatus / GetAllStatus / GetAllStatusPagination / Grep / GetTagList, the daemon's initial directory read) — and in random subsets of 1..5 fields of random definitions (rapid). Oracle: no canary file exists afterwards and the sorted os.Environ() is identical before and after; positive control per run: the evaluating dag.Load does create the env/params/logDir canaries and exports variables. Non-trivial: every (field, entry point, kind) triple; distinct by construction (catalogue) or by hash (random).",
+        "assumptions": ["side effects are observed as files created by the planted command and as changes of the process environment; other effects of arbitrary commands are represented by the canary", "the process environment is restored after every case"],
+        "stages": [
+            {"name": "catalogue", "run": "TestCatalogue", "kind": "plain", "shards": 16, "timeout": {"quick": 600, "thorough": 1200}},
+            sim_stage(150, 6000),
+        ],
+    },
 }
